@@ -404,8 +404,8 @@ func tall(h int, hf xmss.HashFunction, seed [48]uint8, r *rand.Rand, tr *trace.B
 			m++
 		}
 	}
-	// exhausted (or nearly): the borders
-	for int(k.x.GetIndex()) < n {
+	// exhausted (or nearly): the borders. Bounded: a key whose index does not advance must not hang the driver.
+	for q := 0; q < 12 && int(k.x.GetIndex()) < n; q++ {
 		if _, rr := k.sign(m); rr == "ok" {
 			sigs++
 		}
@@ -417,6 +417,44 @@ func tall(h int, hf xmss.HashFunction, seed [48]uint8, r *rand.Rand, tr *trace.B
 	k.setIndex(0)
 	k.sign(m + 1)
 	k.drop(true)
+	return sigs
+}
+
+// tallrebuild (C08 at heights whose index needs 3 bytes): an original object signs across 2^16; objects
+// rebuilt from the seed reach the same indices by one jump, by two jumps and by signing after a jump,
+// and must be in the same live state and give the same signatures (family tables; observables only).
+func tallRebuild(h int, hf xmss.HashFunction, seed [48]uint8, r *rand.Rand, tr *trace.Buf) int {
+	noModel = true
+	defer func() { noModel = false }()
+	fam := nextFam()
+	sigs := 0
+	signN := func(k *keyObj, n int) {
+		for q := 0; q < n; q++ {
+			if _, rr := k.sign(int(k.x.GetIndex())); rr == "ok" {
+				sigs++
+			}
+		}
+	}
+	o := newKey(xmss.NewXMSSFromSeed(seed, uint8(h), hf, common.SHA256_2X), fam, nil, "seed", tr)
+	base := 1<<16 - 4
+	o.setIndex(uint32(base))
+	signN(o, 10) // across 65535 -> 65536, up to 65541
+	a := newKey(xmss.NewXMSSFromSeed(seed, uint8(h), hf, common.SHA256_2X), fam, o.tree, "seed+jump", tr)
+	a.setIndex(uint32(base + 4)) // exactly 2^16 in one jump
+	signN(a, 5)
+	b := newKey(xmss.NewXMSSFromSeed(seed, uint8(h), hf, common.SHA256_2X), fam, o.tree, "seed+2jumps", tr)
+	b.setIndex(uint32(base + 1))
+	b.setIndex(uint32(base + 5)) // a jump that starts below 2^16 and ends above
+	signN(b, 4)
+	c := newKey(xmss.NewXMSSFromSeed(seed, uint8(h), hf, common.SHA256_2X), fam, o.tree, "seed+jump+sign+jump", tr)
+	c.setIndex(uint32(base + 2))
+	signN(c, 3) // signs 65534, 65535, 65536
+	c.setIndex(uint32(base + 7))
+	signN(c, 2)
+	a.drop(false)
+	b.drop(false)
+	c.drop(false)
+	o.drop(true)
 	return sigs
 }
 
@@ -715,6 +753,8 @@ func main() {
 				}
 			case "rebuild":
 				st.Signatures += rebuild(*h, hf, seedFrom(r), *window, *crashEvery, r, tr)
+			case "tallrebuild":
+				st.Signatures += tallRebuild(*h, hf, seedFrom(r), r, tr)
 			case "tall":
 				st.Signatures += tall(*h, hf, seedFrom(r), r, tr)
 			case "plan":
